@@ -18,6 +18,7 @@ from common import use_repo
 use_repo()
 
 NAMES = ["x", "y", "z", "c", "d", "k", "xs", "ys"]
+ALT_NAMES = ["总计", "naïve", "z", "c_1", "Δ", "k", "xs", "_ys"]     # same indices, non-ASCII / underscore spellings
 LOOP_KINDS = ("wh", "for")
 
 FLOW_LABELS = {
@@ -32,19 +33,38 @@ FLOW_LABELS = {
 # rendering
 
 class Style:
-    """How expressions / else-if chains are written; all choices leave the AST's reads unchanged."""
+    """How expressions / else-if chains / blank and comment lines / line ends / identifiers are written; all
+    choices leave the program's reads and writes unchanged (line numbers are taken from the rendering)."""
 
     def __init__(self, rng=None):
         self.rng = rng
+        self.names = NAMES
+        self.eol = "\n"
+        self.filler = False
+        if rng is not None:
+            if rng.random() < 0.12:
+                self.names = ALT_NAMES
+            k = rng.random()
+            if k < 0.06:
+                self.eol = "\r\n"
+            elif k < 0.10:
+                self.eol = "\r"
+            self.filler = rng.random() < 0.2
 
     def pick(self, n):
         return self.rng.randrange(n) if self.rng is not None else 0
+
+    def fill(self, lines, ind):
+        """Blank / comment lines (with separators that str.splitlines treats as line ends but CPython does not)."""
+        if self.filler and self.rng.random() < 0.3:
+            lines.append(self.rng.choice(["", ind + "# note", ind + "# form\x0cfeed", ind + "# sep\u2028arator", "   ",
+                                          ind + "# nel\x85 fs\x1c"]))
 
 
 def render_expr(rs, style, empty="1"):
     if not rs:
         return empty
-    names = [NAMES[r] for r in rs]
+    names = [style.names[r] for r in rs]
     if len(names) == 1:
         return "(" + names[0] + ")" if style.pick(4) == 3 else names[0]
     # Only forms whose TIFA type is insensitive to the operand types (comparison chains, `+`): on the
@@ -62,18 +82,21 @@ def render(block, style=None, preamble=()):
     """-> (code, numbered block): every stmt gets its 1-based line appended as last element."""
     style = style or Style()
     lines = list(preamble)
+    N = style.names
 
     def go(b, ind, as_elif=False):
         out = []
         for idx, s in enumerate(b):
             kind = s[0]
+            if not (as_elif and idx == 0):
+                style.fill(lines, ind)
             if kind == "as":
                 _, x, rs, aug = s
                 ln = len(lines) + 1
                 if aug and rs and rs[-1] == x:
-                    lines.append("%s%s += %s" % (ind, NAMES[x], render_expr(rs[:-1], style)))
+                    lines.append("%s%s += %s" % (ind, N[x], render_expr(rs[:-1], style)))
                 else:
-                    lines.append("%s%s = %s" % (ind, NAMES[x], render_expr(rs, style)))
+                    lines.append("%s%s = %s" % (ind, N[x], render_expr(rs, style)))
                 out.append(["as", x, rs, aug, ln])
             elif kind == "ex":
                 rs = s[1]
@@ -81,9 +104,9 @@ def render(block, style=None, preamble=()):
                 if not rs:
                     lines.append(ind + ("print()" if style.pick(2) else "pass"))
                 elif style.pick(3) == 2 and len(rs) == 1:
-                    lines.append(ind + NAMES[rs[0]])
+                    lines.append(ind + N[rs[0]])
                 else:
-                    lines.append("%sprint(%s)" % (ind, ", ".join(NAMES[r] for r in rs)))
+                    lines.append("%sprint(%s)" % (ind, ", ".join(N[r] for r in rs)))
                 out.append(["ex", rs, ln])
             elif kind == "if":
                 _, rs, thn, els = s
@@ -114,7 +137,7 @@ def render(block, style=None, preamble=()):
             elif kind == "for":
                 _, t, rs, body = s
                 ln = len(lines) + 1
-                lines.append("%sfor %s in %s:" % (ind, NAMES[t], render_expr(rs, style, "[1, 2]")))
+                lines.append("%sfor %s in %s:" % (ind, N[t], render_expr(rs, style, "[1, 2]")))
                 b2 = go(body, ind + "    ")
                 if not body:
                     lines.append(ind + "    pass")
@@ -124,7 +147,7 @@ def render(block, style=None, preamble=()):
         return out
 
     nb = go(block, "")
-    return "\n".join(lines) + "\n", nb
+    return style.eol.join(lines) + style.eol, nb
 
 
 def wire(nb):
@@ -204,20 +227,27 @@ def depth(b):
 # --------------------------------------------------------------------------------------------
 # the real code
 
-def run_real(code):
-    """-> sorted list of [label, name, line]  (line 0 for unused: the property names the variable only)."""
+def run_real(code, names=None, variant=0):
+    """-> sorted list of [label, name, line]  (line 0 for unused: the property names the variable only).
+    variant 0: contextualize_report(code); tifa_analysis()   1: custom main file + bare call
+            2: custom main file + tifa_analysis(code)       3: default report + tifa_analysis(code)"""
     from pedal.core.commands import contextualize_report
+    from pedal.core.submission import Submission
     from pedal.tifa import tifa_analysis
-    contextualize_report(code)
-    t = tifa_analysis()
+    if variant in (1, 2):
+        contextualize_report(Submission({"student_main.py": code}, "student_main.py"))
+    else:
+        contextualize_report(code)
+    t = tifa_analysis(code) if variant in (2, 3) else tifa_analysis()
     if not t.success:
         return {"error": type(t.error).__name__ + ": " + str(t.error)[:200]}
+    back = {n: NAMES[i] for i, n in enumerate(names)} if names else {}
     out = []
     for lab, short in FLOW_LABELS.items():
         for i in t.issues.get(lab, []):
             name = i.fields.get("name")
             line = 0 if short == "unused" else i.location.line
-            out.append([short, name, line])
+            out.append([short, back.get(name, name), line])
     return {"issues": sorted(out)}
 
 
